@@ -388,10 +388,21 @@ type vRecord struct {
 	SnapAt int    `json:"snapat"` // cut point of the disagreeing restored replica
 	Lines  string `json:"lines"`  // "" or description of a malformed output line (C15 at the FSM level)
 	View   string `json:"view"`   // "" or mismatch between NAMES/LIST/WHOIS answers and the projected state (C14)
+	Rids   string `json:"rids"`   // "" or description of a reply whose id is not (entry id, position in the batch) (C04/C01)
 	// expiry probe (k = "expire"): sessions with their age relative to the expiration, and what ExpireSessions proposed
 	Exp    int64           `json:"exp,omitempty"`
 	Ages   [][]interface{} `json:"ages,omitempty"`   // [id, rid, age-exp in seconds]
 	Expire []int64         `json:"expire,omitempty"` // ids proposed for deletion
+}
+
+// vCheckRids: reply k of the batch for entry id must carry the id (id, k): GetMessages resumes by position.
+func vCheckRids(msgs []outputstream.Message, id int64) string {
+	for k, m := range msgs {
+		if m.Id.Id != uint64(id) || m.Id.Reply != uint64(k+1) {
+			return fmt.Sprintf("reply at position %d of the batch for entry %d has id %d.%d", k+1, id, m.Id.Id, m.Id.Reply)
+		}
+	}
+	return ""
 }
 
 func vCheckLines(msgs []outputstream.Message) string {
@@ -449,6 +460,7 @@ func vRunHistory(t *testing.T, h int, next func(step int, st map[string]interfac
 		}
 		rec.Out = vProjectReplies(msgs)
 		rec.Lines = vCheckLines(msgs)
+		rec.Rids = vCheckRids(msgs, e.Id)
 		rec.Post = reals[0].srv.VerifProject()
 		// C01: all real-path replicas agree byte for byte
 		var want map[string]string
@@ -857,6 +869,7 @@ func TestVerifIRCEdges(t *testing.T) {
 			}
 			rec.Out = vProjectReplies(msgs)
 			rec.Lines = vCheckLines(msgs)
+			rec.Rids = vCheckRids(msgs, cp.Id)
 			enc.Encode(rec)
 		}
 	}
